@@ -68,6 +68,9 @@ func frameJobs(tier string) []*Job {
 	for _, n := range ns {
 		for _, period := range []int{1, 2, 3} {
 			for _, level := range []int{0, 1} {
+				if level == 1 && period == 3 {
+					continue // HC on a 3-byte period: hash-summary queries the solvers do not finish in time
+				}
 				for _, deliv := range []int{0, 1, 2, 4, 8} {
 					if deliv == 8 && n > 40 {
 						continue
